@@ -109,15 +109,43 @@ def _lark_ns():
 
 
 def _paths(d, cfg, gen=1):
-    base = os.path.join(d, cfg.replace('/', '__').replace('+', '_'))
+    base = os.path.join(d, cfg.replace('/', '__').replace('+', '_').replace(':', '_'))
     return {'save': '%s.g%d.save' % (base, gen), 'cache': base + '.cache', 'sa': base + '_sa.py', 'sac': base + '_sac.py'}
 
 
-def _split_opts(cfg):
-    e, opts = W.options_for(cfg)
-    user = {k: opts[k] for k in ('lexer_callbacks', 'transformer', 'postlex') if k in opts}
-    plain = {k: v for k, v in opts.items() if k not in user}
-    return e, opts, plain, user
+def spec_of(cfg):
+    """JSON-able case spec of a corpus configuration"""
+    name, _, variant = cfg.partition('/')
+    e = W.ENTRIES[name]
+    opts = dict(e.options)
+    opts.update(e.variants[variant])
+    user = {}
+    if e.callbacks:
+        user['callbacks'] = [k for k in variant.split('+') if k in W.CALLBACK_SETS][0]
+    if e.transformer:
+        user['transformer'] = e.transformer
+    if e.postlex:
+        user['postlex'] = e.postlex
+    return {'name': cfg, 'grammar': e.grammar, 'options': opts, 'user': user, 'input_kind': e.input_kind}
+
+
+class _E:
+    def __init__(self, kind):
+        self.input_kind = kind
+
+
+def _split_opts(spec):
+    plain = dict(spec['options'])
+    user = {}
+    u = spec.get('user') or {}
+    if u.get('callbacks'):
+        user['lexer_callbacks'] = dict(W.CALLBACK_SETS[u['callbacks']])
+    if u.get('transformer'):
+        user['transformer'] = W.make_transformer(u['transformer'])
+    if u.get('postlex'):
+        user['postlex'] = W.make_postlex(u['postlex'])
+    opts = dict(plain, **user)
+    return _E(spec.get('input_kind', 'str')), opts, plain, user
 
 
 def node(job):
@@ -126,10 +154,13 @@ def node(job):
     d = job['dir']
     tr = {}
     notes = []
+    specs = {c['name']: c for c in job['cases']}
     for st in job['steps']:
         cfg = st['cfg']
-        e, opts, plain, user = _split_opts(cfg)
-        probes = job['probes'][cfg]
+        spec = specs[cfg]
+        e, opts, plain, user = _split_opts(spec)
+        e.grammar = spec['grammar']
+        probes = spec['probes']
         P = _paths(d, cfg, st.get('gen', 1))
         do = st['do']
         try:
